@@ -182,6 +182,15 @@ def check_add(ctx, repo, cls):
                 if isinstance(s, ast.AugAssign) and isinstance(s.target, ast.Name) and isinstance(s.op, ast.Add) and is_const(s.value) \
                         and s.target.id in kvar_val:
                     kvar_val[s.target.id] += const_value(s.value)
+                if isinstance(s, ast.Assign) and any(access_path(t) == content for t in s.targets) and isinstance(s.value, ast.ListComp) \
+                        and len(s.value.generators) == 1 and access_path(s.value.generators[0].iter) == content \
+                        and len(s.value.generators[0].ifs) == 1:
+                    g = s.value.generators[0]
+                    cnd = g.ifs[0]
+                    if isinstance(cnd, ast.Compare) and isinstance(cnd.ops[0], ast.IsNot) and access_path(s.value.elt) == access_path(g.target) \
+                            and {access_path(cnd.left), access_path(cnd.comparators[0])} == {access_path(g.target), member}:
+                        it_deleted += 1
+                        n_deleted += 1
                 if isinstance(s, ast.Delete):
                     for t in s.targets:
                         if isinstance(t, ast.Subscript) and access_path(t.value) == content:
@@ -204,6 +213,7 @@ def check_add(ctx, repo, cls):
                         elif mc[1] == "remove" and c.args and access_path(c.args[0]) == member:
                             it_deleted += 1
                             n_deleted += 1
+                            bad["R3"] = bad["R3"] or (p, "list.remove(%s) deletes the first member that is == to it; Individual equality compares design vectors, so with two members sharing a design vector (different costs) a non-dominated member is removed and the dominated one stays" % member, s)
                         elif mc[1] in ("pop", "remove", "clear", "insert", "extend"):
                             bad["R3"] = bad["R3"] or (p, "unexpected mutation of the content list: %s" % text(c), s)
             if in_loop and it_flag is not None and e.kind in ("stmt", "break") and not rejected:
